@@ -2,7 +2,7 @@
     inside the allocated array, no other forbidden outcome is reachable, and
     for a file of [flen] bytes the walk ends within [flen/17 + 2] records. *)
 From Coq Require Import NArith ZArith List Bool Lia ZifyBool ZifyNat ZifyN.
-From KdV Require Import Parse.Bounded Parse.BoundedProofs Parse.FlatModel.
+From KdV Require Import Parse.Bounded Parse.BoundedProofs Parse.FlatInit.
 Import ListNotations.
 Local Open Scope N_scope.
 Ltac Zify.zify_post_hook ::= Z.div_mod_to_equations.
